@@ -26,7 +26,7 @@ tie: coq
 	cd coq && for u in LookupEnc LookupDec Hint Options Encode; do \
 	  coqc -Q tie PJ.Tie -Q generated/tie PJ.Tie -Q generated/gen PJ.Gen generated/gen/$${u}Gen.v && \
 	  coqc -Q model PJ.Model -Q tie PJ.Tie -Q generated/tie PJ.Tie -Q generated/gen PJ.Gen -o generated/tie/$${u}Tie.vo tie/$${u}Tie.v || exit 1; done
-	cd coq && for t in EncodeStmtTie C05Source; do coqc -Q model PJ.Model -Q proofs PJ.Proofs -Q tie PJ.Tie -Q generated/tie PJ.Tie -Q generated/gen PJ.Gen -o generated/tie/$$t.vo tie/$$t.v || exit 1; done
+	cd coq && for t in EncodeStmtTie C05Source SourceProps; do coqc -Q model PJ.Model -Q proofs PJ.Proofs -Q tie PJ.Tie -Q generated/tie PJ.Tie -Q generated/gen PJ.Gen -o generated/tie/$$t.vo tie/$$t.v || exit 1; done
 
 clean:
 	-cd coq && [ -f Makefile ] && $(MAKE) clean --no-print-directory
